@@ -4,10 +4,12 @@ pub mod chain;
 pub mod corpus;
 pub mod history;
 pub mod io;
+pub mod logsink;
 pub mod monitors;
 pub mod node;
 pub mod panics;
 pub mod props;
 pub mod report;
 pub mod rng;
+pub mod watch;
 pub mod world;
